@@ -132,4 +132,6 @@ func TestC04(t *testing.T) {
 	h.Run(c, "patterns", c.N(10000, 100000), genCross, oracle)
 	c.Rule("assigns: the same oracle over programs that contain the pattern assignCross: a name bound in the current scope (fresh or from the pool, by assignment or var) is given a new value by one of the assigning forms (x = e; x, y = e1, e2; x, y = [e1, e2]; x, y = m[k]; x = <-ch; x, y = <-ch; a Go function storing through &x) inside one of thirteen block forms - one level, two levels, two levels with a var of the name in between, or a closure called from inside a block - and is read inside, after every block and at the end; a second target is either bound outside too or created in the block")
 	h.Run(c, "assigns", c.N(3000, 30000), genAssign, oracle)
+	c.Rule("overlap: one function value (0-7 fixed parameters, with or without a variadic one; named or assigned literal) is called by 2-8 callers at the same time - go statements on closures, go statements on one shared worker function, or host goroutines running scripts in child scopes of the defining scope - each caller with its own argument values, 10-240 calls each, optionally with all callers meeting at a barrier before each call or all invocations meeting in mid-body, optionally calling itself once more with other arguments; the body copies its parameters into locals by var / plain assignment / from inside if, for-in, for, C-for, catch, finally, switch and a closure, and returns the observations as a list; the host compares each returned list with what that caller passed; non-trivial = every such run that completed; distinct by source text")
+	h.Run(c, "overlap", c.N(overlapQuick, overlapThorough), genOverlap, oracleOverlap)
 }
